@@ -174,10 +174,59 @@ def explore(ctx, art):
         ctx.sample({"input": line, "implementation": o})
 
 
+def glue_expect(ctx, art, line):
+    """what the specification says about a constructor-level line (None = not judged)"""
+    f = line.split()
+    if f[0] == "cfgszx":
+        szx, body = int(f[2]), int(f[3])
+        # datagram transports: exponents 0..6; 7 is BERT (reliable transports only), above 7 is outside the codec's domain
+        return "ok code=68 delivered=%d" % body if szx <= 6 else "err"
+    if f[0] == "bert":
+        rc, out, _ = common.pipe_lines([art["driver"], "spec"], ["buf 7 %s" % f[1]])
+        return "first %s" % out[0] if rc == 0 and out else None
+    return None
+
+
+def glue_lines(ctx):
+    L = []
+    for t in ("udp", "dtls"):
+        for szx in ([2, 6, 7, 8, 9, 15, 200] if ctx.tier == "quick" else [0, 1, 2, 3, 4, 5, 6, 7, 8, 9, 15, 16, 127, 200, 255]):
+            L.append("cfgszx %s %d 3000" % (t, szx))
+    for local in ([1152, 2048, 4096] if ctx.tier == "quick" else [1152, 2047, 2048, 2049, 3000, 4096, 65536]):
+        L.append("bert %d 1048576 10240" % local)
+    return L
+
+
+def glue(ctx, art):
+    """the codec's users: a client made by udp.Dial / dtls.Dial with an exponent outside the domain must refuse to transfer
+    (never silently use another exponent); a BERT transfer over tcp cuts blocks by the LOCAL maximum message size, whatever
+    the peer's CSM announces"""
+    with common.Lock():
+        exe = common.build_test(ctx, "c19glue")
+    if not exe or not art.get("driver"):
+        return
+    lines = glue_lines(ctx)
+    out = common.run_test_harness(ctx, exe, "TestC19Glue", lines, timeout=600, tag="glue")
+    if out is None or len(out) != len(lines):
+        return
+    for l, o in zip(lines, out):
+        ctx.cov["evaluations"] += 1
+        ctx.count("glue-" + l.split()[0])
+        if o == "conn-error":
+            ctx.notes.append("rig problem (not a violation): %s -> %s" % (l, o))
+            continue
+        want = glue_expect(ctx, art, l)
+        if want is not None and o != want:
+            clause = "refused-outside-domain" if l.startswith("cfgszx") else "bert-bounded-by-max-message-size"
+            ctx.violations.append(common.Violation(clause, "C19:glue:" + " ".join(l.split()[:2]), "%s: observed `%s`, expected `%s`" % (l, o, want),
+                                                   {"input": [l], "observed": o, "expected": want, "glue": True}))
+
+
 def run(ctx):
     art = common.standard_prepare(ctx, MODULES, generated=["Blockwise.lean"])
     if art.get("hx"):
         explore(ctx, art)
+    glue(ctx, art)
     return common.finish(ctx)
 
 
@@ -187,6 +236,18 @@ def replay(ctx, rep):
     if not lines:
         print("replay file names no failing input:", rep.get("no_longer_checks"))
         return common.finish(ctx) if not art["proofs_ok"] else 0
+    if rep.get("glue"):
+        with common.Lock():
+            exe = common.build_test(ctx, "c19glue")
+        out = common.run_test_harness(ctx, exe, "TestC19Glue", lines, tag="replay")
+        bad = 0
+        for l, o in zip(lines, out):
+            want = glue_expect(ctx, art, l)
+            print("%s: implementation `%s`  specification `%s`" % (l, o, want))
+            bad += want is not None and o != want
+        if bad:
+            print("VIOLATION property=C19 replay=(replayed) still reproduces")
+        return 1 if bad else 0
     impl, model, spec = run_three(art, lines)
     bad = 0
     for l, a, s in zip(lines, impl, spec):
